@@ -702,6 +702,14 @@ func (x *Exec) havocLoc(st *State, loc string, env map[string]binding, pkg strin
 				st.heaps[hn] = smt.Store(h, sArr(e.t), nv)
 				return
 			}
+			if vn, vs, hn, hs, ok := x.mapHeaps(e.typ); ok { // a map: its row in both map heaps
+				for _, p := range [][2]string{{vn, vs}, {hn, hs}} {
+					h := x.heap(st, p[0], p[1])
+					nv := smt.Ite(smt.Eq(e.t, smt.IntLit(0)), smt.Select(h, smt.IntLit(0)), x.ctx.Fresh("maprow", elemSortOf(p[1])))
+					st.heaps[p[0]] = smt.Store(h, e.t, nv)
+				}
+				return
+			}
 		}
 	}
 	if strings.HasSuffix(loc, ".*") {
@@ -848,6 +856,9 @@ func (x *Exec) heapNamesOfDesignator(loc string, ct *gcl.Contract, sig *types.Si
 			if sl, ok := e.typ.Underlying().(*types.Slice); ok && !isAggregate(sl.Elem()) {
 				hn, _ := x.elemHeap(sl.Elem())
 				return []string{hn}
+			}
+			if vn, _, hn, _, ok := x.mapHeaps(e.typ); ok {
+				return []string{vn, hn}
 			}
 		}
 	case strings.HasSuffix(loc, ".*"):
